@@ -1325,7 +1325,8 @@ fn gen_c03(rng: &mut Rng, r: u64) -> Value {
     }
     let mut v = victim_write(rng, keyed, 0, len, 0);
     v["mode"] = json!(f.1);
-    if f.1 == "async" && len >= 2 && (v["entry"] == "opts" || v["entry"] == "create") && rng.chance(1, 3) {
+    // (not with a declared size: a mapped temp file is written by memory copies the scheduler does not see)
+    if f.1 == "async" && len >= 2 && (v["entry"] == "opts" || v["entry"] == "create") && v["opts"].get("size").is_none() && rng.chance(1, 3) {
         // a write future is dropped after one poll (its background write is still parked by the scheduler) and the
         // caller goes on with other data: whatever ends up under a content address must still be the data of that address
         let a = rng.range(1, len - 1);
@@ -1906,7 +1907,10 @@ fn gen_abandon(rng: &mut Rng) -> Value {
 /// the moment of the drop, so the sequence is the same in every execution.
 fn gen_abandon_chunk(rng: &mut Rng) -> Value {
     let keys = vec!["kept".to_string(), "streamed".to_string()];
-    let len = *rng.pick(&[40u64, 3000, 70_000, 300_000]);
+    // (a declared size of 1 MiB or less maps the temp file: its writes are memory copies the scheduler does not see,
+    // so the declared-size variant uses a value above that and a short abandoned chunk)
+    let sized = rng.chance(1, 4);
+    let len = if sized { 1_300_000 } else { *rng.pick(&[40u64, 3000, 70_000, 300_000]) };
     let vals = vec![json!({"seed": rng.next_u64() >> 1, "len": len}), json!({"seed": rng.next_u64() >> 1, "len": 21})];
     let f = *rng.pick(&[("astd", "async"), ("tokio", "async")]);
     let prelude = vec![json!({"k":"api","op":"write","entry":"write","key":0,"val":1,"bin":"sync","mode":"sync"})];
@@ -1919,9 +1923,14 @@ fn gen_abandon_chunk(rng: &mut Rng) -> Value {
         left -= n;
     }
     let ai = chunks.len();
-    let big = rng.range(left / 2, left - 10);
+    // the abandoned chunk is the large one (what follows is shorter), or a short one followed by one long buffer
+    let big = if !sized && rng.chance(2, 3) { rng.range(left / 2, left - 10) } else { rng.range(1, 16).min(left - 20) };
     chunks.push(big);
     left -= big;
+    if big < 20 {
+        chunks.push(left);
+        left = 0;
+    }
     while left > 0 {
         let n = rng.range(1, 5).min(left);
         chunks.push(n);
@@ -1932,6 +1941,7 @@ fn gen_abandon_chunk(rng: &mut Rng) -> Value {
         }
     }
     let chunks: Vec<u64> = chunks.into_iter().filter(|n| *n > 0).collect();
+    let chunks_for_size = chunks.clone();
     let mut st = json!({"k":"api","op":"write","entry":*rng.pick(&["opts","create"]),"val":0,"mode":"async","chunks":chunks,"abandon_chunks":[ai],"opts":{}});
     if rng.chance(3, 4) {
         st["key"] = json!(1);
@@ -1944,6 +1954,11 @@ fn gen_abandon_chunk(rng: &mut Rng) -> Value {
     if rng.chance(1, 3) {
         // the caller flushes right after giving up on the write
         st["flush_after"] = json!([ai]);
+    }
+    if sized {
+        // the declared size is what the writer is going to acknowledge: everything but the abandoned chunk
+        st["opts"]["size"] = json!(len - chunks_for_size[ai]);
+        st["entry"] = json!("opts");
     }
     let mut steps = vec![st];
     if rng.chance(1, 2) {
